@@ -150,6 +150,10 @@ MAP_SOURCES = [
        'static void vhm_grow_real(struct vhm* self, bucket_t* bucket_p, bstate_t state)',
        self_calls={'do_grow': 'vhm_do_grow'}, post_subst=ref_params('bucket'),
        must_fire={'A_XCHG': 1, 'A_STORE': 1, 'A_LOAD': 1, 'self_call:do_grow': 1}),
+  mapf('grow_int', r'void vyukov_hash_map<Key, Value, Policies...>::grow\(bucket& bucket, bucket_state state\)',
+       'static void vhm_grow_int(struct vhm* self, bucket_t* bucket_p, bstate_t state)',
+       self_calls={'do_grow': 'vhm_do_grow'}, post_subst=ref_params('bucket'), cut_loops={0: 'WAIT'},
+       must_fire={'A_XCHG': 1, 'A_STORE': 1, 'A_LOAD': 1, 'cut_loop': 1}),
   mapf('do_grow', r'void vyukov_hash_map<Key, Value, Policies...>::do_grow\(\)', 'static void vhm_do_grow_real(struct vhm* self)',
        subst=[(r'\bblock\* new_block', 'block_t* new_block', 'block_type'), (r'\bguarded_block g\(old_block\);', 'guarded_block g = old_block;', 'guard_ctor')],
        self_calls={'allocate_block': 'vhm_allocate_block'},
@@ -202,7 +206,7 @@ Q, T, QT = ['quick'], ['thorough'], ['quick', 'thorough']
 for L in (1, 2, 3):
     for nt in (0, 1):
         sfx = ('n' if nt else 't') + str(L)
-        RUNS.append(w_run('do_extract_' + sfx, 'h_do_extract', L, nt, QT if L == 2 else T, ex_loops(L)))
+        RUNS.append(w_run('do_extract_' + sfx, 'h_do_extract', L, nt, QT if L == (1 if nt else 2) else T, ex_loops(L)))
         RUNS.append(w_run('erase_' + sfx, 'h_erase', L, nt, QT if L == 1 else T, ex_loops(L)))
         RUNS.append(w_run('extract_' + sfx, 'h_extract', L, nt, QT if L == 1 else T, ex_loops(L)))
         RUNS.append(w_run('emplace_' + sfx, 'h_emplace', L, nt, QT if L == 1 else T, em_loops(L)))
@@ -218,6 +222,7 @@ for nt in (0, 1):
 RUNS.append(dict(w_run('lock_int', 'h_lock_int', 1, 0, QT, {}), mode='INT', cls='unbounded', note='spin loop cut by invariant LOCK; environment: other threads lock/unlock/modify the bucket at will'))
 for L, nt, tiers in ((1, 0, QT), (1, 1, QT), (2, 0, T), (2, 1, T)):
     RUNS.append(dict(w_run('do_grow_%s%d' % ('n' if nt else 't', L), 'h_do_grow', L, nt, tiers, {}), note='one old bucket (3 slots + chain <= %d) rehashed into two new buckets; allocate_block is a stub' % L))
+RUNS.append(dict(w_run('grow_int', 'h_grow_int', 1, 0, QT, {}), mode='INT', cls='unbounded', note='wait loop cut by invariant WAIT; environment: another thread may hold / release the resize lock and use the bucket once it is released'))
 RUNS.append(w_run('grow_t', 'h_grow', 1, 0, ['quick', 'thorough'], {'vhm_grow_real__0': 1}))
 
 UNIT = dict(
@@ -228,7 +233,16 @@ UNIT = dict(
         '(the reclaimer contracts are other units); backoff dropped; Factory/Callback template arguments are harness hooks (the emplace/get_or_emplace(_lazy) wrappers only build lambdas); '
         'destructor calls of the RAII local `unlocker` are made explicit by the unit-local rule raii() (before every return / exceptional exit / backward goto after its declaration), '
         'try/catch and throwing argument evaluation by try_catch()/throw_checks() in vhm_rules.py; unlocker::enabled default member initialiser is read as a constant and applied in the constructor',
-  assumptions=[],
+  assumptions=[
+    'composition across buckets, blocks and threads (global linearizability) is a lemma, not proved here: the unit proves the per-bucket sequential specification of every writer from any quiescent state, the writer guarantee, and the reader\'s validation under arbitrary interference',
+    'the rely of the reader (an occupied slot changes only under a delete marker naming it; a marker is cleared / the item count shrinks only with a version bump; an unlinked extension item is not rewritten before the version moved on from the version at which it was unlinked; a moved item stays reachable at its source until the version moves) is exactly what obligation vhm.remove.version_bumped proves of every writer path; that it makes a validated read a linearizable read is the informal step',
+    'bucket version counter does not wrap around during one try_get_value call (27 bits)',
+    'stub allocate_block: returns null or a zeroed block with 2n buckets whose extension pool is all free and not smaller than the old one (operator new + memset + list construction not lowered)',
+    'stubs guard_ptr/acquire_guard/new node: raw pointers; constructing a guard_ptr in compare_key may throw (hazard pointer exhaustion), in store_item it is assumed not to (the fresh node would leak - outside C10); guard_ptr::reclaim of an empty guard is a null dereference (true of every xenium reclaimer)',
+    'allocate/free_extension_item are contract stubs in the writer runs; the contracts are proved for the real text by runs alloc / free (extension items per extension bucket: 2 instead of 10, a shape parameter)',
+    'Key/Value are 16-bit words standing for any type: the code only copies them, compares keys with == and hashes keys; hash{}(key) is an uninterpreted function (arbitrary collisions)',
+    'INT mode is sequentially consistent; memory orders are checked only as far as the sync obligations vhm.sync.release / vhm.sync.acquire state',
+  ],
   consts=BS_CONSTS + [dict(name='XV_UNLOCKER_ENABLED_DEFAULT', file=IMPL, regex=r'bool enabled = (\w+);'),
                       dict(name='XV_HDR_EXTENSION_ITEM_COUNT', file=HDR, regex=r'static constexpr std::uint32_t extension_item_count = ([^;]+);')],
   sources=BS_SOURCES + TRAIT_SOURCES + MAP_SOURCES,
@@ -257,6 +271,6 @@ UNIT = dict(
   },
   replays={'vhm.erase.retires_only_removed': dict(src='replay_ops.cpp'), 'vhm.extract.iff_present': dict(src='replay_ops.cpp'),
            'vhm.emplace.iff_absent': dict(src='replay_ops.cpp'), 'vhm.get.terminates': dict(src='replay_ops.cpp'), 'vhm.get.seq_lookup': dict(src='replay_ops.cpp')},
-  loop_obligation={'RETRY': 'vhm.get.validated', 'CHAIN': 'vhm.get.validated', 'LOCK': 'vhm.lock_bucket.acquired'},
-  canaries=[],
+  loop_obligation={'RETRY': 'vhm.get.validated', 'CHAIN': 'vhm.get.validated', 'LOCK': 'vhm.lock_bucket.acquired', 'WAIT': 'vhm.grow.resize_lock'},
+  canaries=['alloc.all_empty', 'alloc.item', 'alloc.no_extension_buckets', 'do_grow.array_only', 'do_grow.bad_alloc', 'do_grow.with_chain', 'emplace.array', 'emplace.extension', 'emplace.factory_threw', 'emplace.first_extension', 'emplace.found_array', 'emplace.found_chain', 'emplace.grow_retry', 'emplace.grow_threw', 'emplace.new_threw_with_extension_item', 'emplace.threw_with_extension_item', 'erase.absent', 'erase.absent_collision', 'erase.removed', 'extract.absent', 'extract.absent_collision', 'extract.array_last', 'extract.array_move_last', 'extract.array_with_chain', 'extract.chain_first', 'extract.chain_later', 'extract.empty_bucket', 'extract.threw', 'extract_api.absent', 'extract_api.absent_collision', 'extract_api.removed', 'free.done', 'get_int.false', 'get_int.true_array', 'get_int.true_chain', 'get_seq.false', 'get_seq.false_collision_in_chain', 'get_seq.true_array', 'get_seq.true_chain', 'grow.done', 'grow.threw', 'grow_int.waited', 'grow_int.resized', 'lock_int.acquired'],
 )
